@@ -454,6 +454,7 @@ def c19(res):
                 payload["queries"] = rec["web"]["queries"][:30]
             res.violation("%s" % f, payload)
     mc_graph(res, wd, graphs)
+    ondemand_replay(res, rng, q, wd)
     res.traces += len(recs)
     res.evaluations += nq
     res.nontrivial += nq
@@ -582,3 +583,49 @@ def sim_design(res, rng, q):
         else:
             res.notes.append("self-check: %s violates WitnessAlways as expected" % cfg)
     shutil.rmtree(wd, ignore_errors=True)
+
+
+def ondemand_replay(res, rng, q, wd):
+    """spec -> implementation: every request sequence TLC enumerates from OnDemand.tla is replayed into the real
+    single-worker spawn_on_demand(); the evaluated set after every request must be the spec's."""
+    small = [force_sentinel(g) for g in gg.f1_corpus(rng, 10)] + [force_sentinel(gg.random_graph(rng, "od-%d" % i, 3, 4)) for i in range(6 if q else 25)]
+    gp = os.path.join(wd, "od-graphs.ndjson")
+    write_ndjson(gp, small)
+    r = run_tlc("OnDemand.tla", "cfg/OnDemand.cfg", env=dict(GRAPHS=gp), workers=1, timeout=1800, name="ondemand-spec")
+    res.add_tlc(r, "OnDemand")
+    if not r["ok"]:
+        raise ToolError("OnDemand.tla: %s violated\n%s" % (r["violated"], r["out"][-2000:]))
+    behaviours = []
+    for line in r["out"].splitlines():
+        if line.startswith('<<"OD", "') and line.endswith('">>'):
+            behaviours.append(json.loads(line[len('<<"OD", "'):-3].replace('\\"', '"').replace("\\\\", "\\")))
+    by_g = {}
+    for b in behaviours:
+        by_g.setdefault(b["gi"], []).append(b)
+    def grew(b):
+        out, prev = [], 0
+        for h_ in b["hist"]:
+            out.append(len(h_) > prev)
+            prev = len(h_)
+        return out
+    items = [dict(g=small[gi - 1], gi=gi, depth=0, seed=1, web=False, od_threads=1, requests=[b["reqs"] for b in bs],
+                  patience=[grew(b) for b in bs]) for gi, bs in sorted(by_g.items())]
+    ip, rp, jp, op = [os.path.join(wd, x) for x in ("od-items.ndjson", "od-recs.ndjson", "od-judge.ndjson", "od-out.json")]
+    write_ndjson(ip, items)
+    run_vh(["explorer", "--in", ip, "--out", rp], timeout=3000)
+    recs = read_ndjson(rp)
+    flat = []
+    for rec in recs:
+        bs = by_g[rec["gi"]]
+        for b, od in zip(bs, rec["ondemand"]):
+            flat.append(dict(gi=rec["gi"], reqs=b["reqs"], hist=b["hist"], steps=od["steps"], visited=od["visited"], is_done=od["is_done"]))
+    write_ndjson(jp, flat)
+    r = run_tlc("JudgeOnDemand.tla", "cfg/empty.cfg", env=dict(GRAPHS=gp, RECS=jp, OUT=op), timeout=1800, name="jondemand", heap="6g")
+    if not r["ok"]:
+        raise ToolError("on-demand judge failed: " + r["out"][-2000:])
+    o = json.load(open(op))
+    for i in o["bad"]:
+        x = flat[i - 1]
+        res.violation("ondemand_replay", dict(check="ondemand_replay", graph={k: small[x["gi"] - 1][k] for k in ("n", "init", "succ", "inb")}, behaviour=x))
+    res.traces += len(flat)
+    res.notes.append("OnDemand.tla: %d request sequences enumerated by TLC replayed into the real on-demand checker" % len(flat))
